@@ -407,6 +407,8 @@ class Array:
         """
         if hasattr(array, '__len__'):
             array = np.asarray(array, dtype=self._dtype)
+            if array.ndim == 0:  # zero-dimensional array, is just a number
+                array = array.reshape(1)
         else:
             array = np.array(array, dtype=self._dtype, ndmin=1)
         if not array.shape[1:] == self.shape[1:]:
